@@ -243,6 +243,9 @@ func (r *runner) replayAll(g *graph, paths [][]int32, covered int, work string) 
 			}
 		}
 		for _, d := range out.divs {
+			if os.Getenv("VERIF_FFLDB_NOKNOWN") != "" { // development aid: show known findings in full
+				d.key += "(shown)"
+			}
 			ctx.Violation(d.key, d.what, map[string]any{
 				"config": r.cfg, "failing_step": out.atStep, "steps": out.trace,
 				"how": "replay the listed specification steps (field a = action) against a fresh ffldb database: /verif/check.sh C05 " + ctx.Tier + " with VERIF_SEED=" + fmt.Sprint(ctx.Seed),
